@@ -350,7 +350,7 @@ func treeAlphabet(tier string) (int, gen.TreeAlphabet) {
 	if tier == "thorough" {
 		return 3, gen.TreeAlphabet{Names: []string{"a", "bb", "c.d"}, Leaves: "bls", MaxEntries: 3}
 	}
-	return 3, gen.TreeAlphabet{Names: []string{"a", "bbb"}, Leaves: "bls", MaxEntries: 2}
+	return 3, gen.TreeAlphabet{Names: []string{"a", "bbb"}, Leaves: "blsg", MaxEntries: 2}
 }
 
 func treeScenario(r *mrepo.Repo, trees []mrepo.ID, viaTag bool) *gen.Scenario {
@@ -818,7 +818,7 @@ func c02Worker(sh *explore.Shard) {
 	}
 	// (d) tree DAGs with every entry kind (gitlinks and symlinks are entries too) x all tree orders
 	{
-		al := gen.TreeAlphabet{Names: []string{"a", "bbb", "c"}, Leaves: "bls", MaxEntries: 3}
+		al := gen.TreeAlphabet{Names: []string{"a", "bbb", "c"}, Leaves: "blsg", MaxEntries: 3}
 		kmax := 2
 		gen.TreeDAGs(kmax, al, func(r *mrepo.Repo, lv gen.Leaves, trees []mrepo.ID) bool {
 			idx++
@@ -841,6 +841,42 @@ func c02Worker(sh *explore.Shard) {
 			}
 			return true
 		})
+	}
+	// (e) blobs around the capacity of the 32-bit size counter (sizes only: the
+	// scan never reads blob contents): the maximum is min(true maximum, 2^32-1)
+	// wherever the huge blob sits in the enumeration
+	{
+		huge := []uint64{1<<32 - 1, 1 << 32, 1<<32 + 5, 3 << 32}
+		for hi, hs := range huge {
+			for pos := 0; pos < 3; pos++ {
+				idx++
+				if !sh.Mine(idx) || sh.Expired() {
+					continue
+				}
+				r := mrepo.New()
+				var es []mrepo.Entry
+				for b := 0; b < 3; b++ {
+					var id mrepo.ID
+					if b == pos {
+						id = r.AddVirtualBlob(fmt.Sprintf("huge%d", hi), hs)
+					} else {
+						id = r.AddVirtualBlob(fmt.Sprintf("small%d", b), uint64(1000+b))
+					}
+					es = append(es, mrepo.Entry{Mode: 0o100644, Name: fmt.Sprintf("f%d", b), Child: id})
+				}
+				top := r.AddTree(es)
+				c := r.AddCommit(mrepo.CommitSpec{Tree: top, Time: gen.T0, Message: "m\n"})
+				r.SetRef("refs/heads/main", c)
+				sc := &gen.Scenario{Repo: r, Desc: fmt.Sprintf("huge blob of %d bytes at position %d", hs, pos)}
+				l := defaultListing(sc)
+				n.beginScenario()
+				gen.Orders(r, l, gen.OrderSpace{Blobs: true, Max: 720}, func(order []mrepo.ID) bool {
+					n.one(sc, order, sizes.NameStyleNone, true, nil)
+					return true
+				})
+				sh.C.Nontrivial++
+			}
+		}
 	}
 	// (c) absent kinds: blob-only and tree-only root sets must report 0 for the other kinds
 	{
@@ -869,7 +905,7 @@ func c09Worker(sh *explore.Shard) {
 	var idx int64
 	// every listing order of trees and tags, every linear extension of commits,
 	// every blob order, every root order, on mixed repositories
-	mixedScenarios("quick", func(r *mrepo.Repo, special map[string]mrepo.ID, desc string) bool {
+	mixedScenarios(sh.Tier, func(r *mrepo.Repo, special map[string]mrepo.ID, desc string) bool {
 		idx++
 		if !sh.Mine(idx) {
 			return true
@@ -1071,14 +1107,14 @@ func init() {
 		"the in-process command stage of shimpipe stands in for os/exec; all other go-pipe code is the verbatim v1.0.2 source",
 		"listing orders explored are all orders satisfying the one guarantee git-sizer relies on (no commit before all of its listed children)",
 	}
-	Registry["C01"] = &Check{Level: "model_checking", Worker: c01Worker, QuickBudget: 50 * time.Second, ThoroughBudget: 8 * time.Minute,
+	Registry["C01"] = &Check{Level: "model_checking", Worker: c01Worker, QuickBudget: 150 * time.Second, ThoroughBudget: 8 * time.Minute,
 		Rule: "bounded-exhaustive product of tree DAGs (2 trees) x 4 commit shapes x 5 tag configurations with unreachable noise and detached HEAD; for each every subset of references as selection x ROOT in {none, commit, tree, blob, tag+commit}; scanned in-process by the real CollectReferences+ScanRepositoryUsingGraph under git's order and one deviation; census keys compared with the independent oracle; a repository without any reference and with a detached HEAD measured by the real binary with no selection must report zero. non-trivial = a (repository, selection) pair with at least one root", Assumptions: asm}
-	Registry["C02"] = &Check{Level: "model_checking", Worker: c02Worker, QuickBudget: 50 * time.Second, ThoroughBudget: 8 * time.Minute,
+	Registry["C02"] = &Check{Level: "model_checking", Worker: c02Worker, QuickBudget: 150 * time.Second, ThoroughBudget: 8 * time.Minute,
 		Rule: "all commit DAGs (n<=4) x all message-length vectors (2 lengths quick, 4 with ties thorough) x all linear extensions; blob-size vectors over {0,3,9} x 3 layouts x all tree/blob listing permutations (cap 720); blob-only/tree-only root sets; maxima compared with the oracle. non-trivial = scenario with more than one listing order", Assumptions: asm}
-	Registry["C03"] = &Check{Level: "model_checking", Worker: c03Worker, QuickBudget: 50 * time.Second, ThoroughBudget: 10 * time.Minute,
+	Registry["C03"] = &Check{Level: "model_checking", Worker: c03Worker, QuickBudget: 150 * time.Second, ThoroughBudget: 10 * time.Minute,
 		Rule: "all commit DAGs on n commits (n<=4 quick, n<=5 thorough) x all non-empty root subsets x all linear extensions of the listing; all tag forests on m tags (m<=4 / 5) x all non-empty root subsets x all m! listing orders; max_history_depth and max_tag_depth compared with the longest-chain oracle; real git deciding the order: every DAG on n<=3 (quick) / n<=4 (thorough) commits x every assignment of distinct timestamps (children older than parents included) through the real binary with real git. non-trivial = scenario with more than one admissible order", Assumptions: asm}
-	Registry["C04"] = &Check{Level: "model_checking", Worker: c04Worker, QuickBudget: 50 * time.Second, ThoroughBudget: 20 * time.Minute,
+	Registry["C04"] = &Check{Level: "model_checking", Worker: c04Worker, QuickBudget: 150 * time.Second, ThoroughBudget: 20 * time.Minute,
 		Rule: "all tree DAGs with <=3 generated trees over the tier's name/leaf alphabet x all listing permutations of the trees; other trees reached from a lightweight tag or an annotated tag of a tree; wide trees (255/256/257/600 subdirectories); special-name single shapes; seven checkout dimensions compared separately with the recursive-expansion oracle. non-trivial = scenario with more than one listing order", Assumptions: asm}
-	Registry["C09"] = &Check{Level: "model_checking", Worker: c09Worker, QuickBudget: 50 * time.Second, ThoroughBudget: 10 * time.Minute,
+	Registry["C09"] = &Check{Level: "model_checking", Worker: c09Worker, QuickBudget: 150 * time.Second, ThoroughBudget: 10 * time.Minute,
 		Rule: "for each mixed repository (trees x commit shapes x tag configurations): every listing permutation of trees, tags, blobs and every linear extension of commits (capped per scenario, cap reported) and every permutation of the reference listing; all numeric keys must equal the first order's and the oracle's; root-order family (every subset of aliasing references x every permutation of the reference listing x 3 ROOT lists); explicit-state search at the Graph API with full state keys (states = delivered sets, every path into a set must give the same canonical key of the entire private state; tree DAGs with 3 (4) generated trees, a 10 (12)-tree shared DAG, wide trees of 255/256/257/300 entries, all tag forests on 5 (6) tags); storage layouts with real git (loose, pack-refs, repack -ad, gc, gc --aggressive --prune=now, repack -f --depth=1) on every 37th (quick) / 5th (thorough) mixed repository: byte-identical JSON equal to the oracle", Assumptions: asm}
 }
